@@ -21,7 +21,7 @@ Alphabet == {
   Region("circle", "", Plain3, [include |-> "0", tag |-> "t1", tag2 |-> "Group 2"], FALSE),          \* two tags on one line (a list of two)
   Region("box", "", Box5, NoProps, TRUE),
   [k |-> "composite", props |-> P([color |-> "yellow"])], [k |-> "composite", props |-> P([include |-> "0"])], [k |-> "composite", props |-> P([text |-> "Group A"])],
-  [k |-> "comment"], [k |-> "badshape"], [k |-> "badword"],
+  [k |-> "comment"], [k |-> "badshape", cont |-> FALSE], [k |-> "badshape", cont |-> TRUE], [k |-> "badword"],
   Region("annulus", "", <<T("plain", 10500), T("plain", 20250), T("plain", 1000), T("plain", 2000), T("plain", 3500)>>, NoProps, FALSE),
   Region("text", "", <<T("plain", 10500), T("plain", 20250)>>, [text |-> "hello; world # x=1"], FALSE) }
 Seqs(S, n) == UNION {[1..m -> S] : m \in 1..n}
